@@ -13,8 +13,8 @@
     The runtime remainder (that the harmless classes really are harmless, and crashes outside these sites) is covered by
     execution, not by proof. *)
 From Coq Require Import List String Ascii Bool.
-From PintV Require Import Common.Bytes Gen.Tables Gen.C18 Model.TemplatedRegexp Model.TemplatedRegexpSites
-                          Proofs.C18_template Proofs.C18_sites.
+From PintV Require Import Common.Bytes Gen.Tables Gen.C18 Model.TemplatedRegexp Model.TemplatedRegexpBlocks Model.TemplatedRegexpSites
+                          Proofs.C18_template Proofs.C18_blocks Proofs.C18_sites.
 Import ListNotations.
 Open Scope string_scope.
 Open Scope list_scope.
@@ -81,6 +81,75 @@ Proof. exact prefix_protocol_crashes. Qed.
 Print Assumptions C18_prefix_protocol_refuted.
 
 (* ---------------------------------------------------------------------------------------------- *)
+(** * Part 1b — the protocol at the level of whole rule sub-blocks (validate / parseRule / String + Check)
+
+    For every behaviour of text/template and regexp (with the constant fallback pattern compiling):
+
+    an `annotation "<key>" { token value }` / `label "<key>" { .. }` block accepted by AnnotationSettings.validate is
+    turned by parseRule into a check whose key pointer is non-nil and still spells the configured key, whose String()
+    does not crash, whose every regexp use inside Check (key unguarded, token and value behind `!= nil`) returns a
+    regexp on every rule, and in which a token / value that was set is really in force (not silently dropped). *)
+Theorem C18_annotation_label_blocks_total :
+  forall (Tmpl Re : Type) (tmpl_parse : string -> option Tmpl) (tmpl_exec : Tmpl -> tctx -> option string)
+         (re_compile : string -> option Re),
+  re_compile never_matching <> None ->
+  forall s name required r,
+    validate_kv Tmpl Re tmpl_parse tmpl_exec re_compile s = true ->
+    let c := build_kv Tmpl Re tmpl_parse tmpl_exec re_compile s in
+    (exists k, kc_key c = Some k /\ t_original k = ks_key s) /\
+    is_ok (kv_string name required c) = true /\
+    forallb is_ok (kv_uses Tmpl Re tmpl_parse tmpl_exec re_compile c r) = true /\
+    (ks_token s <> "" -> kc_token c <> None) /\ (ks_value s <> "" -> kc_value c <> None).
+Proof. intros Tmpl Re tp te rc H s name required r V. exact (kv_block_total Tmpl Re tp te rc H s name required r V). Qed.
+Print Assumptions C18_annotation_label_blocks_total.
+
+(** ... and it is the validation of the key that protects: with a key that validation would have rejected, the very
+    first String() call dereferences nil (an invalid token / value would only disable that option). *)
+Theorem C18_unvalidated_block_key_crashes :
+  forall (Tmpl Re : Type) (tmpl_parse : string -> option Tmpl) (tmpl_exec : Tmpl -> tctx -> option string)
+         (re_compile : string -> option Re) s name required,
+  validate_templated Tmpl Re tmpl_parse tmpl_exec re_compile (ks_key s) = false ->
+  is_ok (kv_string name required (build_kv Tmpl Re tmpl_parse tmpl_exec re_compile s)) = false.
+Proof. exact kv_block_unvalidated_key_crashes. Qed.
+Print Assumptions C18_unvalidated_block_key_crashes.
+
+(** `reject "<re>" {}`: every check built is total on every rule (all uses are behind `!= nil`), and for an accepted
+    block the configured regexp is in force in each of them. *)
+Theorem C18_reject_blocks_total :
+  forall (Tmpl Re : Type) (tmpl_parse : string -> option Tmpl) (tmpl_exec : Tmpl -> tctx -> option string)
+         (re_compile : string -> option Re),
+  re_compile never_matching <> None ->
+  forall regex lk lv ak av r c,
+    In c (build_reject Tmpl Re tmpl_parse tmpl_exec re_compile regex lk lv ak av) ->
+    forallb is_ok (reject_uses Tmpl Re tmpl_parse tmpl_exec re_compile c r) = true /\
+    (validate_reject Tmpl Re tmpl_parse tmpl_exec re_compile regex = true -> rc_key c <> None \/ rc_value c <> None).
+Proof.
+  intros Tmpl Re tp te rc H regex lk lv ak av r c Hin. split.
+  - exact (reject_block_total Tmpl Re tp te rc H regex lk lv ak av r c Hin).
+  - intro V. exact (reject_block_in_force Tmpl Re tp te rc regex lk lv ak av V c Hin).
+Qed.
+Print Assumptions C18_reject_blocks_total.
+
+(** `name "<re>" {}`, `link "<re>" {}` (String() and Check dereference the pointer unguarded) and
+    `aggregate "<re>" {}` (built under `Name != ""`, used unguarded; validate rejects the empty name). *)
+Theorem C18_name_link_aggregate_blocks_total :
+  forall (Tmpl Re : Type) (tmpl_parse : string -> option Tmpl) (tmpl_exec : Tmpl -> tctx -> option string)
+         (re_compile : string -> option Re),
+  re_compile never_matching <> None ->
+  forall regex name r,
+    (validate_single Tmpl Re tmpl_parse tmpl_exec re_compile regex = true ->
+       is_ok (single_string name (build_single Tmpl Re tmpl_parse tmpl_exec re_compile regex)) = true /\
+       forallb is_ok (single_uses Tmpl Re tmpl_parse tmpl_exec re_compile (build_single Tmpl Re tmpl_parse tmpl_exec re_compile regex) r) = true) /\
+    (validate_aggregate Tmpl Re tmpl_parse tmpl_exec re_compile regex = true ->
+       forallb is_ok (single_uses Tmpl Re tmpl_parse tmpl_exec re_compile (build_aggregate Tmpl Re tmpl_parse tmpl_exec re_compile regex) r) = true).
+Proof.
+  intros Tmpl Re tp te rc H regex name r. split; intro V.
+  - exact (single_block_total Tmpl Re tp te rc H regex name r V).
+  - exact (aggregate_block_total Tmpl Re tp te rc H regex r V).
+Qed.
+Print Assumptions C18_name_link_aggregate_blocks_total.
+
+(* ---------------------------------------------------------------------------------------------- *)
 (** * Part 2 — dropped-error sites of the current source *)
 
 (** FULL statement.  Every site of internal/config, internal/checks and cmd/pint where an error is dropped or a Must*
@@ -134,6 +203,32 @@ Theorem C18_guard_check_rejects_unguarded_use :
   has_validator "ReportSettings.validate" "checks.ParseSeverity" "rs.Severity" false = true.
 Proof. vm_compute. repeat split. Qed.
 Print Assumptions C18_guard_check_rejects_unguarded_use.
+
+(** The emptiness guards the block model uses ([build_kv]: key unconditional, token / value only when set;
+    [build_aggregate]: only when the name is set; reject / name / link: unconditional) are the guards of the CURRENT
+    parseRule, and the validator calls the model assumes ([validate_kv]: all three unconditional) are the current
+    validator calls — read off the generated tables. *)
+Theorem C18_block_model_matches_source :
+  let site callee arg := {| ds_file := "internal/config/parsed_rule.go"; ds_func := "parseRule"; ds_kind := "must"; ds_callee := callee; ds_args := arg |} in
+  guards_of (site "checks.MustTemplatedRegexp" "ann.Key") = [""] /\
+  guards_of (site "checks.MustRawTemplatedRegexp" "ann.Token") = ["ann.Token != """""] /\
+  guards_of (site "checks.MustTemplatedRegexp" "ann.Value") = ["ann.Value != """""] /\
+  guards_of (site "checks.MustTemplatedRegexp" "lab.Key") = [""] /\
+  guards_of (site "checks.MustRawTemplatedRegexp" "lab.Token") = ["lab.Token != """""] /\
+  guards_of (site "checks.MustTemplatedRegexp" "lab.Value") = ["lab.Value != """""] /\
+  guards_of (site "checks.MustTemplatedRegexp" "reject.Regex") = [""] /\
+  guards_of (site "checks.MustTemplatedRegexp" "name.Regex") = [""] /\
+  guards_of (site "checks.MustTemplatedRegexp" "link.Regex") = [""] /\
+  guards_of (site "checks.MustTemplatedRegexp" "aggr.Name") = ["aggr.Name != """""] /\
+  has_validator "AnnotationSettings.validate" "checks.NewTemplatedRegexp" "as.Key" true = true /\
+  has_validator "AnnotationSettings.validate" "checks.NewRawTemplatedRegexp" "as.Token" true = true /\
+  has_validator "AnnotationSettings.validate" "checks.NewTemplatedRegexp" "as.Value" true = true /\
+  has_validator "RejectSettings.validate" "checks.NewTemplatedRegexp" "rs.Regex" true = true /\
+  has_validator "RuleNameSettings.validate" "checks.NewTemplatedRegexp" "rs.Regex" true = true /\
+  has_validator "RuleLinkSettings.validate" "checks.NewTemplatedRegexp" "s.Regex" true = true /\
+  has_validator "AggregateSettings.validate" "checks.NewTemplatedRegexp" "ag.Name" true = true.
+Proof. vm_compute. repeat split. Qed.
+Print Assumptions C18_block_model_matches_source.
 
 (* ---------------------------------------------------------------------------------------------- *)
 (** * Part 3 — load-time validation reaches every block of the configuration schema
